@@ -9,6 +9,16 @@ POOL = ["", "*", "a", "a b", "x=y", "--bind=::1", "LABEL=a:", "a::b", "t=12:30",
         "\\", '"""', "'''", "a\\nb"]
 
 
+# $VAR expansion inside non-raw string literals: one pass, left to right, longest name, values are never expanded again, unset names stay
+DOLLAR_ENV = {"PRJ": "/srv/app", "PRJ_OLD": "/old/app", "USD": "$PRJ", "E": ""}
+POOL_DOLLAR = ["$PRJ:$PRJ_OLD", "$PRJ_OLD:$PRJ", "$PRJX-$PRJ", "$USD/$PRJ", "$PRJ$PRJ", "a$E.b$PRJ", "$PRJ_OLD$PRJ_OLD$PRJ"]
+
+
+def _ref_dollar(text):
+    import re
+    return re.sub(r"\$(\w+|\{\w+\})", lambda m: DOLLAR_ENV.get(m.group(1).strip("{}"), m.group(0)), text)
+
+
 def _ref_tilde(word, home):
     """bash: a tilde-prefix at the start of the word, and - in an assignment word - right after the first `=` and after each `:` of the value"""
     def one(p):
@@ -36,6 +46,8 @@ def _forms(text):
         return [f for f in out if f[0] in ("@(expr)", "@([list])", "r'...'")] + [("'...' / \"...\"", lit, True)]
     if not text.endswith("\\") and '"""' not in text and not text.endswith('"'):
         out.append(('r"""..."""', 'r"""%s"""' % text, False))
+    if text in POOL_DOLLAR:
+        out.append(("'...' / \"...\" with $VAR", lit, "dollar"))
     if "$" not in text:
         out.append(("'...' / \"...\"", lit, True))
         if "'''" not in text and not text.endswith("'") and "\\" not in text:
@@ -58,6 +70,8 @@ env["XONSH_INTERACTIVE"] = False
 env["XONSH_SHOW_TRACEBACK"] = False
 env["HOME"] = "/xv-home"
 os.environ["HOME"] = "/xv-home"
+for _k, _v in %r.items():
+    env[_k] = _v
 seen = []
 def rec(args, stdin=None):
     seen.append(list(args))
@@ -94,19 +108,21 @@ def argv(tier, seed):
     repo = os.environ.get("XV_REPO", "/repo")
     d = tempfile.mkdtemp(prefix="xv-c04-", dir=os.environ.get("XV_SCRATCH"))
     cases, meta = [], {}
-    for text in POOL:
+    for text in POOL + POOL_DOLLAR:
         for fname, src, expands in _forms(text):
+            if text in POOL_DOLLAR and expands == "adjacent":
+                continue  # (the adjacent form expands the injected value - the recorded known finding; the $ texts are here for the string-literal forms)
             for pos in ("only", "first", "last"):
                 cid = len(cases)
                 args_src = {"only": src, "first": src + " z", "last": "z " + src}[pos]
-                want = "w" + text if expands == "adjacent" else (_ref_tilde(text, "/xv-home") if expands else text)
+                want = "w" + text if expands == "adjacent" else (_ref_dollar(text) if expands == "dollar" else (_ref_tilde(text, "/xv-home") if expands else text))
                 want_argv = {"only": [want], "first": [want, "z"], "last": ["z", want]}[pos]
                 child = args_src if (pos == "only" and tier != "quick") or (pos == "only" and len(cases) % 5 == 0) else None
                 cases.append([cid, "recalias " + args_src, child])
                 meta[cid] = (text, fname, pos, want_argv)
     open(os.path.join(d, "wmatch"), "w").close()   # so that a glob `w*` has something to match in the driver's directory
     json.dump(cases, open(os.path.join(d, "cases.json"), "w"))
-    open(os.path.join(d, "driver.py"), "w").write(_DRIVER)
+    open(os.path.join(d, "driver.py"), "w").write(_DRIVER.replace("%r.items()", repr(DOLLAR_ENV) + ".items()"))
     failures, n, nontrivial, samples = [], 0, 0, []
     kp = os.path.join(os.path.dirname(os.path.dirname(os.path.abspath(__file__))), "KNOWN_FINDINGS.json")
     known = [k for k in json.load(open(kp))["findings"] if k["property"] == "C04" and k.get("status") == "known" and k.get("native_class")]
